@@ -30,7 +30,7 @@ import common
 
 LEVEL = 'proof'
 LEANCHECKER = True
-RULE = ("a case is (rows, cols, factor, header kind in {cdelt, cd, mixed, both, cdrot (full rotated CD matrix), pc, crota}, input in {hdu, file}, image pattern "
+RULE = ("a case is (rows, cols, factor, header kind in {cdelt, cd, mixed, both, cdrot (full rotated CD matrix), pc, crota}, input in {hdu (HDUList), file (str name), path (pathlib.Path), pathlike (another os.PathLike)}, image pattern "
         "in {random, affine, nodal, sparse (zero nodes next to 3e9 nodes, every factor 1..64)}); the real compress and expand are run on it; non-trivial = factor >= 2 (some "
         "pixel is interpolated and the residual bookkeeping is exercised); distinct by (rows, cols, factor, header "
         "kind, input); malformed-stream cases are counted separately in the histogram and are never non-trivial")
@@ -327,6 +327,42 @@ class Obs:
     pass
 
 
+class FsPath:
+    """a minimal os.PathLike that is neither str nor pathlib.Path"""
+    def __init__(self, p):
+        self.p = p
+
+    def __fspath__(self):
+        return self.p
+
+
+def as_name(io, p):
+    """the object used to NAME a file, per input kind: str, pathlib.Path or another os.PathLike"""
+    import pathlib
+    if io == 'path':
+        return pathlib.Path(p)
+    if io == 'pathlike':
+        return FsPath(p)
+    return p
+
+
+def relayout(img, layout):
+    """the same pixel values in another dtype / byte order / memory layout (what a caller may hand over in an HDU)"""
+    if layout == 'F':
+        return np.asfortranarray(img)
+    if layout == 'f8':
+        return img.astype(np.float64)
+    if layout == 'be':
+        return img.astype('>f4')
+    if layout == 'strided':
+        big = np.zeros((img.shape[0] * 2, img.shape[1] * 3), dtype=np.float32)
+        big[::2, ::3] = img
+        return big[::2, ::3]
+    if layout == 'i4':
+        return img.astype(np.int32)
+    return img
+
+
 def run_impl(ctx, case, want_file_checks=True, fixed_tag=None):
     """compress + expand through the real code; returns an Obs (with .error set if something raised)"""
     from astropy.io import fits
@@ -336,7 +372,13 @@ def run_impl(ctx, case, want_file_checks=True, fixed_tag=None):
     o.img = make_image(rows, cols, f, pattern, case.get('imgseed', 0))
     o.error = None
     hl = make_hdulist(o.img, kind)
+    if case.get('layout'):
+        hl[0].data = relayout(o.img, case['layout'])
+        if case['layout'] in ('f8', 'i4'):      # BITPIX legitimately becomes -32 after the round trip
+            hl[0].header['BITPIX'] = -32
     o.hdr0 = hdr_view(hl[0].header)
+    if case.get('layout') in ('f8', 'i4'):
+        o.hdr0['__other__']['BITPIX'] = enc(-32)
     o.hdr0_tokens = hdr_tokens(hl[0].header)
     tmp = ctx.tmpdir()
     run_impl.n = getattr(run_impl, 'n', 0) + 1
@@ -351,18 +393,18 @@ def run_impl(ctx, case, want_file_checks=True, fixed_tag=None):
     cpath = path('c_')
     try:
         o.stage = 'compress'
-        if io == 'file':
+        if io in ('file', 'path', 'pathlike'):
             ipath = path('i_')
             hl.writeto(ipath, overwrite=True)
             epath = path('e_')
-            res = fits_tools.compress(ipath, f, cpath)
+            res = fits_tools.compress(as_name(io, ipath), f, as_name(io, cpath))
             if res is None:
                 o.error = 'none'
                 return o
             with fits.open(cpath) as ch:
                 o.chdr, o.cdata = ch[0].header.copy(), np.array(ch[0].data)
             o.stage = 'expand'
-            res = fits_tools.expand(cpath, epath)
+            res = fits_tools.expand(as_name(io, cpath), as_name(io, epath))
             if res is None:
                 o.error = 'none'
                 return o
@@ -382,7 +424,7 @@ def run_impl(ctx, case, want_file_checks=True, fixed_tag=None):
                 o.error = 'none'
                 return o
             o.ehdr, o.edata = res[0].header.copy(), np.array(res[0].data)
-        o.cpath = cpath if (io == 'file' or want_file_checks) else None
+        o.cpath = cpath if (io != 'hdu' or want_file_checks) else None
         o.files = [cpath, path('i_'), path('e_')]
     except Exception as e:  # noqa
         o.error = f"{type(e).__name__}: {e}"
@@ -393,6 +435,10 @@ def sig(what, case, **kw):
     rows, cols, f = case['rows'], case['cols'], case['f']
     s = dict(site='compress/expand', what=what, residual_rows=rows % f != 0, residual_cols=cols % f != 0,
              factor_gt_size=f > min(rows, cols))
+    if case.get('io') in ('path', 'pathlike'):
+        s['name_type'] = case['io']
+    if case.get('layout'):
+        s['layout'] = case['layout']
     if case.get('fname'):
         s['file_name'] = 'non-ascii' if any(ord(ch) > 127 for ch in case['fname']) else 'ascii'
     if case.get('history'):
@@ -417,8 +463,9 @@ def check_consumers(ctx, case, o):
     if not getattr(o, 'cpath', None) or not os.path.exists(o.cpath):
         return
     try:
-        data, hdr = fits_tools.load_image_band(o.cpath)
-        aux = SourceFinder(log=logging.getLogger('verif-C15'))._load_aux_image(o.img, o.cpath)
+        name = as_name(case.get('io'), o.cpath)
+        data, hdr = fits_tools.load_image_band(name)
+        aux = SourceFinder(log=logging.getLogger('verif-C15'))._load_aux_image(o.img, name)
     except Exception as e:  # noqa
         ctx.fail('spec', case, f"a compressed file was rejected on load: {type(e).__name__}: {e}",
                  sig('consumer-raises', case))
@@ -761,6 +808,9 @@ def file_names(ctx):
         c = mk(rows, cols, f, rng.choice(['cdelt', 'cdrot']), 'file', 'nodal', rng.randint(0, 10 ** 6))
         c['fname'], c['relative'] = fname, rel
         cases.append(c)
+        if not ctx.quick or len(cases) % 3 == 1:
+            c2 = dict(c, io='path')
+            cases.append(c2)
     run_cases(ctx, cases, use_driver=False, consumers=True)
     sr6_cases(ctx, cases, missing=False)
     ctx.count('file-names', len(cases))
@@ -773,6 +823,49 @@ def large_cases(ctx):
         cases += [mk(1500, 1100, 13, 'cd', 'file', 'nodal', 83), mk(2 ** 17 + 3, 3, 64, 'cdelt', 'hdu', 'sparse', 84)]
     run_cases(ctx, cases, use_driver=False, consumers=False)
     ctx.count('large', len(cases))
+
+
+def env_slice(ctx):
+    """the same corpus cases in a worker thread, under np.errstate(all='raise') and with warnings turned into errors:
+    the result must still satisfy the Spec (the property does not restrict where the functions are called from)"""
+    import threading
+    cases = [mk(*c) for c in CORPUS[:14] if c[2] <= 16][:10]
+
+    def one(case, label):
+        c = dict(case, env=label)
+        o = run_impl(ctx, c, want_file_checks=True)
+        return c, o
+
+    out = []
+    for k, case in enumerate(cases):
+        label = ['thread', 'errstate-raise', 'warnings-error'][k % 3]
+        if label == 'thread':
+            box = []
+            t = threading.Thread(target=lambda: box.append(one(case, label)))
+            t.start()
+            t.join()
+            out.append(box[0] if box else (dict(case, env=label), None))
+        elif label == 'errstate-raise':
+            with np.errstate(all='raise'):
+                out.append(one(case, label))
+        else:
+            with warnings.catch_warnings():
+                warnings.simplefilter('error')
+                warnings.simplefilter('ignore', ResourceWarning)     # file handles: not the property's subject
+                out.append(one(case, label))
+            warnings.simplefilter('ignore')
+    for c, o in out:
+        ctx.count('env:' + c['env'])
+        ctx.case(c)
+        if o is None:
+            ctx.fail('spec', c, "compress/expand did not return in a worker thread", sig('raises', c, env=c['env']))
+            continue
+        before = len(ctx.failures)
+        judge(ctx, c, o, {})
+        if o.error is None:
+            check_consumers(ctx, c, o)
+        for f in ctx.failures[before:]:
+            f['signature']['env'] = c['env']
 
 
 def debug_slice(ctx):
@@ -836,7 +929,7 @@ def histories(ctx):
             seq = []
             for n in range(2 * len(shapes) + 1):           # A B C A B C A': every shape follows every other one
                 r, c = shapes[n % len(shapes)]
-                seq.append(mk(r, c, f, rng.choice(['cdelt', 'cd', 'cdrot']), 'file' if (n + rep) % 2 else 'hdu',
+                seq.append(mk(r, c, f, rng.choice(['cdelt', 'cd', 'cdrot']), ['hdu', 'file', 'path'][(n + rep) % 3],
                               rng.choice(['random', 'nodal']), rng.randint(0, 10 ** 6)))
             run_sequence(ctx, seq)
     # the seeder's own pair
@@ -1008,7 +1101,8 @@ CORPUS = [
     (7, 5, 3, 'cdelt', 'file', 'nodal'), (9, 9, 4, 'cd', 'hdu', 'nodal'), (12, 8, 4, 'cdelt', 'hdu', 'affine'),
     (13, 40, 13, 'mixed', 'file', 'affine'), (40, 40, 39, 'cdelt', 'hdu', 'random'), (40, 39, 41, 'cd', 'hdu', 'random'),
     (5, 17, 16, 'both', 'file', 'nodal'), (9, 7, 3, 'cdrot', 'hdu', 'nodal'), (8, 11, 2, 'cdrot', 'file', 'random'),
-    (10, 6, 4, 'pc', 'hdu', 'affine'), (6, 9, 5, 'crota', 'file', 'random'), (33, 2, 8, 'cdelt', 'file', 'nodal'), (17, 17, 8, 'cd', 'hdu', 'nodal'),
+    (10, 6, 4, 'pc', 'hdu', 'affine'), (6, 9, 5, 'crota', 'file', 'random'),
+    (11, 9, 4, 'cdelt', 'path', 'nodal'), (7, 12, 3, 'cd', 'pathlike', 'random'), (33, 2, 8, 'cdelt', 'file', 'nodal'), (17, 17, 8, 'cd', 'hdu', 'nodal'),
 ]
 
 
@@ -1053,8 +1147,14 @@ def case_set(ctx):
             f = rng.choice([d for d in range(1, 41) if rows % d == 0 or cols % d == 0])   # exact multiples on an axis
         else:
             f = max(1, min(64, min(rows, cols) + rng.randint(-2, 2)))   # factor about the size of the image
-        cases.append(mk(rows, cols, f, rng.choice(KINDS), 'file' if k % 5 == 0 else 'hdu',
+        cases.append(mk(rows, cols, f, rng.choice(KINDS), ['file', 'path', 'hdu', 'hdu', 'pathlike', 'hdu', 'hdu', 'hdu', 'hdu', 'hdu'][k % 10],
                         rng.choice(['random', 'nodal', 'nodal', 'affine', 'sparse']), rng.randint(0, 10 ** 6)))
+    # data handed over in another dtype / byte order / memory layout (HDUList input and file input)
+    for k, layout in enumerate(['F', 'f8', 'be', 'strided', 'i4'] * (1 if ctx.quick else 6)):
+        rows, cols, f = rng.randint(4, 20), rng.randint(4, 20), rng.randint(2, 6)
+        c = mk(rows, cols, f, rng.choice(['cdelt', 'cdrot']), 'hdu' if k % 2 else 'path', 'nodal', rng.randint(0, 10 ** 6))
+        c['layout'] = layout
+        cases.append(c)
     return cases
 
 
@@ -1070,6 +1170,7 @@ def run(ctx):
     file_names(ctx)
     large_cases(ctx)
     debug_slice(ctx)
+    env_slice(ctx)
     histories(ctx)
     repeated_ops(ctx)
     nan_witness(ctx)
@@ -1149,13 +1250,15 @@ def replay(ctx, rec):
             sr6_cases(ctx, [])
     elif c.get('op') == 'compress-twice':
         repeated_ops(ctx)
+    elif c.get('env'):
+        env_slice(ctx)
     elif 'rows' in c and 'f' in c and 'kind' in c and c.get('history'):
         run_sequence(ctx, [mk(*h) for h in c['history']] +
                      [mk(c['rows'], c['cols'], c['f'], c['kind'], c.get('io', 'hdu'), c.get('pattern', 'random'),
                          c.get('imgseed', 0))])
     elif 'rows' in c and 'f' in c and 'kind' in c:
         one = mk(c['rows'], c['cols'], c['f'], c['kind'], c.get('io', 'hdu'), c.get('pattern', 'random'), c.get('imgseed', 0))
-        one.update({k: c[k] for k in ('fname', 'relative') if k in c})
+        one.update({k: c[k] for k in ('fname', 'relative', 'layout') if k in c})
         run_cases(ctx, [one])
     elif 'nan_at' in c:
         nan_witness(ctx)
